@@ -1,63 +1,12 @@
-(* C11/Sim.v — the model refines the reference store of Spec.v.
+(* C11/Sim.v — the model of the code as it is now ([cur]) refines the reference store of Spec.v.
 
-   [abs] maps a model state to the reference state it stands for.  Every operation of the
-   model is matched by the reference transition, provided the situation is outside the
-   finding classes (Corr.cls):
-     3  an unsigned document is accepted although a certificate reaches the source  (class3_b)
-     4/5 an MDQ answer that is not "tolerable" [tol]: a group, a foreign entity, or (with a
-        certificate) a document whose signature does not verify;  a malformed answer is
-        tolerable (the exception it causes serves nothing) as long as no later source could
-        serve the entity (homes <= 1)
-     1  service(): the entity asked for has more than one possible home  (homes <= 1)
-     2  with_descriptor(): some entityID is present in two sources  (ids_nodup)            *)
+   [abs] maps a model state to the reference state it stands for; every operation of the model is matched
+   EXACTLY by the reference transition, for ALL histories, without any hypothesis on the inputs. *)
 From Coq Require Import String List Bool ZArith Arith Lia.
 From Verif Require Import Base.Str C11.Model C11.Dec C11.Spec C11.Proofs.
 Import ListNotations.
 Open Scope string_scope.
 Open Scope list_scope.
-
-(* ------------------------------------------------------------------ more dictionary facts *)
-Lemma lookup_upsert_same {A} k (v : A) l : lookup k (upsert k v l) = Some v.
-Proof.
-  induction l as [|[k' v'] r IH]; cbn [upsert lookup].
-  - rewrite String.eqb_refl. reflexivity.
-  - destruct (String.eqb k k') eqn:E; cbn [lookup]; [rewrite String.eqb_refl; reflexivity|rewrite E; exact IH].
-Qed.
-
-Lemma lookup_upsert_other {A} k k2 (v : A) l : k2 <> k -> lookup k2 (upsert k v l) = lookup k2 l.
-Proof.
-  intros Hne. induction l as [|[k' v'] r IH]; cbn [upsert lookup].
-  - destruct (String.eqb k2 k) eqn:E; [apply String.eqb_eq in E; contradiction|reflexivity].
-  - destruct (String.eqb k k') eqn:E; cbn [lookup].
-    + apply String.eqb_eq in E. subst k'.
-      destruct (String.eqb k2 k) eqn:E2; [apply String.eqb_eq in E2; contradiction|reflexivity].
-    + destruct (String.eqb k2 k'); [reflexivity|exact IH].
-Qed.
-
-Lemma has_key_upsert {A} k k2 (v : A) l : has_key k2 (upsert k v l) = String.eqb k2 k || has_key k2 l.
-Proof.
-  unfold has_key. destruct (String.eqb k2 k) eqn:E.
-  - apply String.eqb_eq in E. subst. rewrite lookup_upsert_same. reflexivity.
-  - apply String.eqb_neq in E. rewrite (lookup_upsert_other _ _ _ _ E). reflexivity.
-Qed.
-
-Lemma lookup_none_key {A} k (l : list (string * A)) kv : lookup k l = None -> In kv l -> fst kv <> k.
-Proof.
-  induction l as [|[k' v'] r IH]; cbn [lookup]; [intros _ []|].
-  destruct (String.eqb k k') eqn:E; [discriminate|]. intros H [<-|Hin].
-  - cbn. apply String.eqb_neq in E. congruence.
-  - apply IH; assumption.
-Qed.
-
-Lemma lookup_some_haskey {A} k (l : list (string * A)) v : lookup k l = Some v -> has_key k l = true.
-Proof. unfold has_key. intros ->. reflexivity. Qed.
-
-Lemma has_key_remove {A} k k2 (l : list (string * A)) : has_key k2 (remove_key k l) = true -> has_key k2 l = true.
-Proof.
-  destruct (String.eqb k2 k) eqn:E.
-  - apply String.eqb_eq in E. subst. unfold has_key. rewrite lookup_remove_same. discriminate.
-  - apply String.eqb_neq in E. unfold has_key. rewrite (lookup_remove_other _ _ _ E). auto.
-Qed.
 
 (* a value-wise map that keeps the keys *)
 Section KeyMap.
@@ -92,17 +41,6 @@ Definition abs (w : world) : rworld :=
 
 Definition res_opt (g : res ent) : option ent := match g with ROk en => Some en | _ => None end.
 
-(* an MDQ answer outside the finding classes 3 and 4 *)
-Definition tol (cert : bool) (e : string) (f : fetched) : bool :=
-  match f with
-  | FMissing => true
-  | FBody Garbage _ => true
-  | FBody WrongRoot _ => true
-  | FBody (D (Single d)) sg => String.eqb (e_id d) e && (negb cert || sig_valid sg)
-  | FBody (D (Group _ _)) _ => false
-  end.
-(* ... that does not make the fetch raise *)
-Definition quiet (f : fetched) : bool := match f with FBody Garbage _ => false | _ => true end.
 
 (* every cached entity has an expiration date *)
 Definition mdx_inv (x : mdx) : Prop := forall e, has_key e (x_ents x) = true -> has_key e (x_exp x) = true.
@@ -132,49 +70,66 @@ Qed.
 Lemma exp_of_upsert_same e t ex : exp_of (upsert e t ex) e = t.
 Proof. unfold exp_of. rewrite lookup_upsert_same. reflexivity. Qed.
 
-Lemma sig_gate_mdq_single cert d sg : negb cert || sig_valid sg = true -> sig_gate cert KMdq (Some false) (D (Single d)) sg = true.
-Proof.
-  unfold sig_gate. destruct cert; cbn [negb orb]; [|reflexivity].
-  destruct sg; cbn; congruence.
-Qed.
+(* the signature gate of the code as it is now *)
+Lemma sig_gate_cur_doc cert k node d sg :
+  sig_gate cur cert k node (D d) sg = negb cert || (sig_valid sg && match node with None => true | Some g => Bool.eqb g (is_group (D d)) end).
+Proof. unfold sig_gate, verify. destruct cert, k, sg; reflexivity. Qed.
 
-Lemma sig_gate_wrongroot cert k node sg : sig_gate cert k node WrongRoot sg = true.
+Lemma sig_gate_wrongroot cert k node sg : sig_gate cur cert k node WrongRoot sg = true.
 Proof. unfold sig_gate. destruct cert; reflexivity. Qed.
 
+Lemma sig_gate_mdq_doc cert d sg : sig_gate cur cert KMdq (Some false) (D d) sg = mdq_sig_ok cert (D d) sg.
+Proof. rewrite sig_gate_cur_doc. unfold mdq_sig_ok. destruct (is_group (D d)); reflexivity. Qed.
+
+Lemma upsert_absent {A} k (v : A) l : lookup k l = None -> upsert k v l = l ++ [(k, v)].
+Proof.
+  induction l as [|[k' v'] r IH]; cbn [lookup upsert app]; [reflexivity|].
+  destruct (String.eqb k k'); [discriminate|]. intros H. rewrite IH by exact H. reflexivity.
+Qed.
+
 Lemma fetch_sim x now srv e x' g :
-  lookup e (x_ents x) = None -> tol (x_cert x) e (ask srv e) = true ->
-  mdx_fetch x now srv e = (x', g) ->
+  lookup e (x_ents x) = None ->
+  mdx_fetch cur x now srv e = (x', g) ->
   refresh (x_cert x) (x_period x) now srv e (abs_cache x) = (abs_cache x', res_opt g)
   /\ x_cert x' = x_cert x /\ x_period x' = x_period x
-  /\ (mdx_inv x -> mdx_inv x') /\ (quiet (ask srv e) = true -> g <> RRaise).
+  /\ (mdx_inv x -> mdx_inv x') /\ g <> RRaise.
 Proof.
-  intros Hn Htol. unfold mdx_fetch, refresh, mdq_fresh.
+  intros Hn. unfold mdx_fetch. cbn [f_mdq f_group cur]. unfold refresh, mdq_fresh.
   destruct (ask srv e) as [|p sg] eqn:Ea.
   { intros H; inversion H; subst. cbn. repeat split; auto; discriminate. }
-  destruct p as [| |[d|vu es]]; cbn [tol] in Htol; try discriminate.
-  - (* Garbage *) cbn [parse]. intros H; inversion H; subst. cbn. repeat split; auto. discriminate.
-  - (* WrongRoot *) cbn [parse]. rewrite sig_gate_wrongroot, Hn. intros H; inversion H; subst. clear H.
-    unfold abs_cache. cbn [x_ents x_exp x_cert x_period res_opt]. rewrite (abs_cache_exp_other x e _ _ Hn).
-    repeat split; try discriminate.
-    intros Hi k Hk. cbn [x_ents x_exp] in *. rewrite has_key_upsert, (Hi k Hk). apply orb_true_r.
-  - (* Single *) apply andb_true_iff in Htol as [Hid Hsig]. apply String.eqb_eq in Hid.
-    cbn [parse]. rewrite (sig_gate_mdq_single _ _ _ Hsig), do_entity_eq, Hid.
-    assert (Hk : has_key e (x_ents x) = false) by (apply has_key_false; exact Hn).
-    rewrite Hk, String.eqb_refl, Hsig. cbn [negb]. rewrite andb_true_r. cbn [andb].
-    destruct (eligible_b true now d) eqn:El.
-    + rewrite lookup_app, Hn. cbn [lookup]. rewrite String.eqb_refl.
-      intros H; inversion H; subst x' g. clear H.
-      unfold abs_cache, kmap. cbn [x_ents x_exp x_cert x_period res_opt]. rewrite map_app.
+  assert (Hexp : forall t, abs_cache {| x_ents := x_ents x; x_exp := upsert e t (x_exp x); x_cert := x_cert x; x_period := x_period x |}
+                           = abs_cache x).
+  { intros t. unfold abs_cache. cbn [x_ents x_exp]. apply abs_cache_exp_other. exact Hn. }
+  assert (Hinv : forall t, mdx_inv x ->
+                 mdx_inv {| x_ents := x_ents x; x_exp := upsert e t (x_exp x); x_cert := x_cert x; x_period := x_period x |}).
+  { intros t Hi k Hk. cbn [x_ents x_exp] in *. rewrite has_key_upsert, (Hi k Hk). apply orb_true_r. }
+  rewrite parse_doc_says. destruct (doc_says true now p) as [es|] eqn:Ed.
+  2:{ intros H; inversion H; subst. cbn. repeat split; auto. discriminate. }
+  (* the gate of the code = the reference's, whenever it matters *)
+  assert (Hgate : sig_gate cur (x_cert x) KMdq (Some false) p sg = mdq_sig_ok (x_cert x) p sg
+                  \/ (sig_gate cur (x_cert x) KMdq (Some false) p sg = true /\ lookup e (view true now es) = None)).
+  { destruct p as [| |d].
+    - cbn in Ed. discriminate.
+    - right. cbn in Ed. inversion Ed; subst. split; [apply sig_gate_wrongroot|reflexivity].
+    - left. apply sig_gate_mdq_doc. }
+  assert (Hcase : (sig_gate cur (x_cert x) KMdq (Some false) p sg = true /\
+                   (if mdq_sig_ok (x_cert x) p sg then lookup e (view true now es) else None) = lookup e (view true now es))
+                  \/ (sig_gate cur (x_cert x) KMdq (Some false) p sg = false /\ mdq_sig_ok (x_cert x) p sg = false)).
+  { destruct Hgate as [Hg|[Hg Hl]].
+    - rewrite Hg. destruct (mdq_sig_ok (x_cert x) p sg); [left|right]; auto.
+    - left. split; [exact Hg|]. rewrite Hl. destruct (mdq_sig_ok (x_cert x) p sg); reflexivity. }
+  destruct Hcase as [[Hg Hl]|[Hg Hm]]; rewrite Hg.
+  - rewrite Hl. destruct (lookup e (view true now es)) as [en|] eqn:El.
+    + intros H; inversion H; subst x' g. clear H.
+      rewrite (upsert_absent _ _ _ Hn). unfold abs_cache, kmap. cbn [x_ents x_exp x_cert x_period res_opt]. rewrite map_app.
       fold (kmap (fun k en => (en, exp_of (upsert e (now + x_period x)%Z (x_exp x)) k)) (x_ents x)).
-      rewrite (abs_cache_exp_other x e _ _ Hn). cbn [map fst snd andb]. rewrite exp_of_upsert_same.
+      rewrite (abs_cache_exp_other x e _ _ Hn). cbn [map fst snd]. rewrite exp_of_upsert_same.
       repeat split; try discriminate.
       intros Hi k Hkk. cbn [x_ents x_exp] in *. rewrite has_key_upsert. rewrite has_key_app in Hkk.
       apply orb_true_iff in Hkk as [Hkk|Hkk]; [rewrite (Hi k Hkk); apply orb_true_r|].
       unfold has_key in Hkk. cbn [lookup] in Hkk. destruct (String.eqb k e); [reflexivity|discriminate].
-    + rewrite Hn. intros H; inversion H; subst x' g. clear H.
-      unfold abs_cache. cbn [x_ents x_exp x_cert x_period res_opt]. rewrite (abs_cache_exp_other x e _ _ Hn).
-      repeat split; try discriminate.
-      intros Hi k Hkk. cbn [x_ents x_exp] in *. rewrite has_key_upsert, (Hi k Hkk). apply orb_true_r.
+    + intros H; inversion H; subst. clear H. rewrite Hexp. cbn [x_cert x_period res_opt]. repeat split; auto. discriminate.
+  - rewrite Hm. intros H; inversion H; subst. cbn. repeat split; auto. discriminate.
 Qed.
 
 Lemma lookup_abs_cache x e :
@@ -182,137 +137,121 @@ Lemma lookup_abs_cache x e :
 Proof. unfold abs_cache. apply lookup_kmap. Qed.
 
 Lemma mdx_get_sim x now srv e x' g :
-  mdx_inv x -> tol (x_cert x) e (ask srv e) = true ->
-  mdx_get x now srv e = (x', g) ->
+  mdx_inv x ->
+  mdx_get cur x now srv e = (x', g) ->
   mdq_get (x_cert x) (x_period x) now srv (abs_cache x) e = (abs_cache x', res_opt g)
-  /\ x_cert x' = x_cert x /\ x_period x' = x_period x /\ mdx_inv x' /\ (quiet (ask srv e) = true -> g <> RRaise).
+  /\ x_cert x' = x_cert x /\ x_period x' = x_period x /\ mdx_inv x' /\ g <> RRaise.
 Proof.
-  intros Hi Htol. rewrite mdq_get_unfold, lookup_abs_cache. unfold mdx_get.
+  intros Hi. rewrite mdq_get_unfold, lookup_abs_cache. unfold mdx_get.
   destruct (lookup e (x_ents x)) as [en|] eqn:El; cbn [option_map].
   - assert (Hk : has_key e (x_exp x) = true) by (apply Hi; eapply lookup_some_haskey; eauto).
     unfold exp_of. unfold has_key in Hk. destruct (lookup e (x_exp x)) as [t|] eqn:Ex; [|discriminate].
     destruct (now <=? t)%Z.
     + intros H; inversion H; subst. repeat split; auto. discriminate.
     + intros H.
-      match type of H with mdx_fetch ?X _ _ _ = _ => set (x0 := X) in * end.
+      match type of H with mdx_fetch _ ?X _ _ _ = _ => set (x0 := X) in * end.
       assert (Hn0 : lookup e (x_ents x0) = None) by (unfold x0; cbn [x_ents]; apply lookup_remove_same).
-      destruct (fetch_sim x0 now srv e x' g Hn0 Htol H) as [H1 [H2 [H3 [H4 H5]]]].
+      destruct (fetch_sim x0 now srv e x' g Hn0 H) as [H1 [H2 [H3 [H4 H5]]]].
       assert (Ea : abs_cache x0 = remove_key e (abs_cache x)).
       { unfold abs_cache, x0. cbn [x_ents x_exp]. symmetry. apply remove_kmap. }
       rewrite <- Ea. change (x_cert x) with (x_cert x0). change (x_period x) with (x_period x0).
       repeat split; auto. apply H4. intros k Hkk. unfold x0 in *. cbn [x_ents x_exp] in *.
       apply Hi. eapply has_key_remove; eauto.
-  - intros H. destruct (fetch_sim x now srv e x' g El Htol H) as [H1 [H2 [H3 [H4 H5]]]]. repeat split; auto.
+  - intros H. destruct (fetch_sim x now srv e x' g El H) as [H1 [H2 [H3 [H4 H5]]]]. repeat split; auto.
+Qed.
+
+(* looking an entity up a second time changes nothing (the store's service() does it) *)
+Lemma remove_key_absent {A} k (l : list (string * A)) : lookup k l = None -> remove_key k l = l.
+Proof.
+  induction l as [|[k' v'] r IH]; cbn [lookup remove_key]; [reflexivity|].
+  destruct (String.eqb k k'); [discriminate|]. intros H. rewrite IH by exact H. reflexivity.
+Qed.
+
+Lemma mdq_get_idem cert period now srv c e c1 en :
+  mdq_get cert period now srv c e = (c1, Some en) -> mdq_get cert period now srv c1 e = (c1, Some en).
+Proof.
+  rewrite !mdq_get_unfold.
+  assert (R : forall c0, lookup e c0 = None -> refresh cert period now srv e c0 = (c1, Some en) ->
+              match lookup e c1 with
+              | Some (en0, t) => if (now <=? t)%Z then (c1, Some en0) else refresh cert period now srv e (remove_key e c1)
+              | None => refresh cert period now srv e c1
+              end = (c1, Some en)).
+  { intros c0 Hn. unfold refresh. destruct (mdq_fresh cert now srv e) as [en1|] eqn:Ef; [|discriminate].
+    intros H; inversion H; subst. rewrite lookup_app, Hn. cbn [lookup]. rewrite String.eqb_refl.
+    destruct (now <=? now + period)%Z; [reflexivity|].
+    rewrite remove_key_filter, filter_app, <- remove_key_filter, (remove_key_absent _ _ Hn).
+    cbn [filter fst]. rewrite String.eqb_refl. cbn [negb]. rewrite app_nil_r. reflexivity. }
+  destruct (lookup e c) as [[en0 t]|] eqn:El.
+  - destruct (now <=? t)%Z eqn:Et.
+    + intros H; inversion H; subst. rewrite El, Et. reflexivity.
+    + apply R. apply lookup_remove_same.
+  - apply R. exact El.
 Qed.
 
 Definition src_inv (s : source) : Prop := match s with SStatic _ => True | SMdx x => mdx_inv x end.
-Definition src_tol (srv : server) (e : string) (s : source) : bool :=
-  match s with SStatic _ => true | SMdx x => tol (x_cert x) e (ask srv e) end.
-Definition src_quiet (srv : server) (e : string) (s : source) : bool :=
-  match s with SStatic _ => true | SMdx _ => quiet (ask srv e) end.
-(* could this source produce the entity? *)
-Definition can_have (s : source) (e : string) : bool := match s with SStatic m => has_key e m | SMdx _ => true end.
 
 Lemma src_get_sim now srv s e s' g :
-  src_inv s -> src_tol srv e s = true -> src_get now srv s e = (s', g) ->
-  rsrc_get now srv (abs_src s) e = (abs_src s', res_opt g) /\ src_inv s'
-  /\ (src_quiet srv e s = true -> g <> RRaise) /\ (can_have s e = false -> s' = s /\ g = RKeyErr).
+  src_inv s -> src_get cur now srv s e = (s', g) ->
+  rsrc_get now srv (abs_src s) e = (abs_src s', res_opt g) /\ src_inv s' /\ g <> RRaise.
 Proof.
-  destruct s as [m|x]; cbn [src_inv src_tol src_get abs_src rsrc_get src_quiet can_have].
-  - intros _ _ H. inversion H; subst. repeat split; auto.
-    + destruct (lookup e m); reflexivity.
-    + destruct (lookup e m); discriminate.
-    + apply has_key_false in H0. rewrite H0. reflexivity.
-  - intros Hi Ht. destruct (mdx_get x now srv e) as [x1 g1] eqn:Eg. intros H; inversion H; subst.
-    destruct (mdx_get_sim x now srv e x1 g Hi Ht Eg) as [H1 [H2 [H3 [H4 H5]]]].
-    rewrite H1. cbn [abs_src src_inv]. rewrite H2, H3. repeat split; auto; discriminate.
+  destruct s as [m|x]; cbn [src_inv src_get abs_src rsrc_get].
+  - intros _ H. inversion H; subst. repeat split; auto; destruct (lookup e m); try reflexivity; discriminate.
+  - intros Hi. destruct (mdx_get cur x now srv e) as [x1 g1] eqn:Eg. intros H; inversion H; subst.
+    destruct (mdx_get_sim x now srv e x1 g Hi Eg) as [H1 [H2 [H3 [H4 H5]]]].
+    rewrite H1. cbn [abs_src src_inv]. rewrite H2, H3. repeat split; auto.
 Qed.
 
-Definition homes (srcs : sources) (e : string) : nat := length (filter (fun ks => can_have (snd ks) e) srcs).
+Lemma rsrc_get_idem now srv s e s1 en :
+  rsrc_get now srv s e = (s1, Some en) -> rsrc_get now srv s1 e = (s1, Some en).
+Proof.
+  destruct s as [v|cert period c]; cbn [rsrc_get].
+  - intros H; inversion H; subst. cbn [rsrc_get]. rewrite H2. reflexivity.
+  - destruct (mdq_get cert period now srv c e) as [c1 r] eqn:Eg. intros H; inversion H; subst.
+    cbn [rsrc_get]. rewrite (mdq_get_idem _ _ _ _ _ _ _ _ Eg). reflexivity.
+Qed.
+
 Definition all_inv (srcs : sources) : Prop := Forall (fun ks => src_inv (snd ks)) srcs.
-Definition all_tol (srv : server) (e : string) (srcs : sources) : bool := forallb (fun ks => src_tol srv e (snd ks)) srcs.
-Definition all_quiet (srv : server) (e : string) (srcs : sources) : bool := forallb (fun ks => src_quiet srv e (snd ks)) srcs.
 
 Lemma abs_srcs_cons k s r : abs_srcs ((k, s) :: r) = (abs_key k, abs_src s) :: abs_srcs r.
 Proof. reflexivity. Qed.
 
-(* nobody can have the entity: every lookup walks through without finding or changing anything *)
-Lemma no_home now srv srcs e :
-  homes srcs e = 0 ->
-  store_get now srv srcs e = (srcs, RKeyErr)
-  /\ ref_get now srv (abs_srcs srcs) e = (abs_srcs srcs, None)
-  /\ forall typ name b known, store_service now srv srcs e typ name b known = (srcs, if known then AUnsupported else AUnknown).
-Proof.
-  induction srcs as [|[k s] r IH]; intros H.
-  - repeat split; reflexivity.
-  - unfold homes in H. cbn [filter snd] in H. destruct (can_have s e) eqn:Ec; [cbn in H; discriminate|].
-    destruct (IH H) as [I1 [I2 I3]].
-    destruct s as [m|x]; [|discriminate]. cbn [can_have] in Ec. apply has_key_false in Ec.
-    rewrite abs_srcs_cons. cbn [store_get store_service src_get ref_get rsrc_get abs_src]. rewrite Ec, I1, I2.
-    repeat split; try reflexivity. intros typ name b known. rewrite I3. reflexivity.
-Qed.
-
-Lemma homes_cons k s r e : homes ((k, s) :: r) e = (if can_have s e then 1 else 0) + homes r e.
-Proof. unfold homes. cbn [filter snd]. destruct (can_have s e); reflexivity. Qed.
-
 (* __getitem__ of the store = the reference's "first source that has it" *)
 Lemma store_get_sim now srv e : forall srcs srcs' g,
-  all_inv srcs -> all_tol srv e srcs = true -> (homes srcs e <= 1 \/ all_quiet srv e srcs = true) ->
-  store_get now srv srcs e = (srcs', g) ->
-  ref_get now srv (abs_srcs srcs) e = (abs_srcs srcs', res_opt g) /\ all_inv srcs'.
+  all_inv srcs -> store_get cur now srv srcs e = (srcs', g) ->
+  ref_get now srv (abs_srcs srcs) e = (abs_srcs srcs', res_opt g) /\ all_inv srcs' /\ g <> RRaise.
 Proof.
-  induction srcs as [|[k s] r IH]; intros srcs' g Hi Ht Hg H.
-  - cbn in H. inversion H; subst. split; [reflexivity|constructor].
-  - inversion Hi as [|? ? Hs Hr]; subst. cbn [all_tol forallb snd] in Ht. apply andb_true_iff in Ht as [Hts Htr].
-    rewrite abs_srcs_cons. cbn [store_get ref_get] in *.
-    destruct (src_get now srv s e) as [s1 g1] eqn:Eg.
-    destruct (src_get_sim now srv s e s1 g1 Hs Hts Eg) as [S1 [S2 [S3 S4]]]. rewrite S1.
-    assert (Hg' : homes r e <= 1 \/ all_quiet srv e r = true).
-    { destruct Hg as [Hg|Hg]; [left; rewrite homes_cons in Hg; lia|right].
-      cbn [all_quiet forallb] in Hg. apply andb_true_iff in Hg as [_ Hg]. exact Hg. }
-    destruct g1 as [en| |]; cbn [res_opt].
-    + inversion H; subst. split; [reflexivity|]. constructor; assumption.
-    + destruct (store_get now srv r e) as [r1 a1] eqn:Er. inversion H; subst.
-      destruct (IH r1 g Hr Htr Hg' eq_refl) as [I1 I2]. rewrite I1. split; [reflexivity|]. constructor; assumption.
-    + inversion H; subst. cbn [res_opt].
-      assert (H0 : homes r e = 0).
-      { destruct Hg as [Hg|Hg].
-        - rewrite homes_cons in Hg. destruct (can_have s e) eqn:Ec; [lia|].
-          destruct (S4 eq_refl) as [_ Hx]. discriminate.
-        - cbn [all_quiet forallb snd] in Hg. apply andb_true_iff in Hg as [Hg _]. exfalso. apply (S3 Hg). reflexivity. }
-      destruct (no_home now srv r e H0) as [_ [N2 _]]. rewrite N2. split; [reflexivity|]. constructor; assumption.
+  induction srcs as [|[k s] r IH]; intros srcs' g Hi H.
+  - cbn in H. inversion H; subst. repeat split; [constructor|discriminate].
+  - inversion Hi as [|? ? Hs Hr]; subst. rewrite abs_srcs_cons. cbn [store_get ref_get] in *.
+    destruct (src_get cur now srv s e) as [s1 g1] eqn:Eg.
+    destruct (src_get_sim now srv s e s1 g1 Hs Eg) as [S1 [S2 S3]]. rewrite S1.
+    destruct g1 as [en| |]; cbn [res_opt]; [| |contradiction].
+    + inversion H; subst. repeat split; [constructor; assumption|discriminate].
+    + destruct (store_get cur now srv r e) as [r1 a1] eqn:Er. inversion H; subst.
+      destruct (IH r1 g Hr eq_refl) as [I1 [I2 I3]]. rewrite I1. repeat split; [constructor; assumption|exact I3].
 Qed.
 
-(* service(): the reference answers from the entity's first home *)
+(* service(): the first source that has the entity answers — exactly the reference *)
 Lemma store_service_sim now srv e typ name b : forall srcs srcs' a,
-  all_inv srcs -> all_tol srv e srcs = true -> homes srcs e <= 1 ->
-  store_service now srv srcs e typ name b false = (srcs', a) ->
-  exists a', ref_via now srv (abs_srcs srcs) e AUnknown (fun en => svc_answer en typ name b) = (abs_srcs srcs', a')
-             /\ norm a = norm a' /\ all_inv srcs'.
+  all_inv srcs -> store_service cur now srv srcs e typ name b = (srcs', a) ->
+  ref_via now srv (abs_srcs srcs) e AUnknown (fun en => svc_answer en typ name b) = (abs_srcs srcs', a) /\ all_inv srcs'.
 Proof.
-  unfold ref_via.
-  induction srcs as [|[k s] r IH]; intros srcs' a Hi Ht Hg H.
-  - cbn in H. inversion H; subst. exists AUnknown. repeat split; constructor.
-  - inversion Hi as [|? ? Hs Hr]; subst. cbn [all_tol forallb snd] in Ht. apply andb_true_iff in Ht as [Hts Htr].
-    rewrite abs_srcs_cons. cbn [store_service ref_get] in *.
-    destruct (src_get now srv s e) as [s1 g1] eqn:Eg.
-    destruct (src_get_sim now srv s e s1 g1 Hs Hts Eg) as [S1 [S2 [S3 S4]]]. rewrite S1.
-    rewrite homes_cons in Hg.
-    destruct (can_have s e) eqn:Ec.
-    + assert (H0 : homes r e = 0) by lia.
-      destruct (no_home now srv r e H0) as [_ [N2 N3]].
-      destruct g1 as [en| |]; cbn [res_opt].
-      * unfold svc_answer.
-        destruct (ent_service en typ name b) as [| |[|x l]|[|x d]] eqn:Es; rewrite ?N3 in H; inversion H; subst;
-          eexists; (split; [reflexivity|]); (split; [reflexivity|]); constructor; assumption.
-      * rewrite N3 in H. inversion H; subst. rewrite N2. eexists. split; [reflexivity|]. split; [reflexivity|].
-        constructor; assumption.
-      * inversion H; subst. rewrite N2. eexists. split; [reflexivity|]. split; [reflexivity|]. constructor; assumption.
-    + destruct (S4 eq_refl) as [-> ->]. cbn [res_opt].
-      destruct (store_service now srv r e typ name b false) as [r1 a1] eqn:Er. inversion H; subst.
-      destruct (IH r1 a Hr Htr ltac:(lia) eq_refl) as [a' [I1 [I2 I3]]].
+  unfold store_service, ref_via. cbn [f_fall cur].
+  induction srcs as [|[k s] r IH]; intros srcs' a Hi H.
+  - cbn in H. inversion H; subst. split; [reflexivity|constructor].
+  - inversion Hi as [|? ? Hs Hr]; subst. rewrite abs_srcs_cons. cbn [store_service_new ref_get] in *.
+    destruct (src_get cur now srv s e) as [s1 g1] eqn:Eg.
+    destruct (src_get_sim now srv s e s1 g1 Hs Eg) as [S1 [S2 S3]]. rewrite S1.
+    destruct g1 as [en| |]; cbn [res_opt]; [| |contradiction].
+    + destruct (src_get cur now srv s1 e) as [s2 g2] eqn:Eg2.
+      destruct (src_get_sim now srv s1 e s2 g2 S2 Eg2) as [T1 [T2 T3]].
+      rewrite (rsrc_get_idem _ _ _ _ _ _ S1) in T1. inversion T1 as [[Ta Tb]].
+      destruct g2 as [en2| |]; cbn [res_opt] in Tb; try discriminate. inversion Tb; subst en2.
+      inversion H; subst. rewrite abs_srcs_cons, <- Ta. split; [reflexivity|]. constructor; assumption.
+    + destruct (store_service_new cur now srv r e typ name b) as [r1 a1] eqn:Er. inversion H; subst.
+      destruct (IH r1 a Hr eq_refl) as [I1 I2].
       destruct (ref_get now srv (abs_srcs r) e) as [rr og] eqn:Erg. inversion I1; subst.
-      eexists. split; [reflexivity|]. split; [exact I2|]. constructor; assumption.
+      split; [reflexivity|]. constructor; assumption.
 Qed.
 
 (* ------------------------------------------------------------------ attribute_requirement, keys, with_descriptor *)
@@ -322,23 +261,20 @@ Proof.
   cbn [fst snd]. rewrite <- (map_id (x_ents x)) at 2. apply map_ext. intros [k v]. reflexivity.
 Qed.
 
+
 Lemma store_attr_req_sim now srv e index : forall srcs srcs' a,
-  all_inv srcs -> all_tol srv e srcs = true ->
-  store_attr_req now srv srcs e index = (srcs', a) ->
-  exists a', ref_attr_req now srv (abs_srcs srcs) e index = (abs_srcs srcs', a') /\ norm a = norm a' /\ all_inv srcs'.
+  all_inv srcs -> store_attr_req cur now srv srcs e index = (srcs', a) ->
+  ref_attr_req now srv (abs_srcs srcs) e index = (abs_srcs srcs', a) /\ all_inv srcs'.
 Proof.
-  induction srcs as [|[k s] r IH]; intros srcs' a Hi Ht H.
-  - cbn in H. inversion H; subst. exists ANone. repeat split; constructor.
-  - inversion Hi as [|? ? Hs Hr]; subst. cbn [all_tol forallb snd] in Ht. apply andb_true_iff in Ht as [Hts Htr].
-    rewrite abs_srcs_cons. cbn [store_attr_req ref_attr_req] in *. rewrite rents_abs.
+  induction srcs as [|[k s] r IH]; intros srcs' a Hi H.
+  - cbn in H. inversion H; subst. split; [reflexivity|constructor].
+  - inversion Hi as [|? ? Hs Hr]; subst. rewrite abs_srcs_cons. cbn [store_attr_req ref_attr_req] in *. rewrite rents_abs.
     destruct (has_key e (ents_of s)).
-    + destruct (src_get now srv s e) as [s1 g1] eqn:Eg.
-      destruct (src_get_sim now srv s e s1 g1 Hs Hts Eg) as [S1 [S2 _]]. rewrite S1. inversion H; subst.
-      eexists. split; [reflexivity|]. split; [|constructor; assumption].
-      destruct g1; reflexivity.
-    + destruct (store_attr_req now srv r e index) as [r1 a1] eqn:Er. inversion H; subst.
-      destruct (IH r1 a Hr Htr eq_refl) as [a' [I1 [I2 I3]]]. rewrite I1.
-      eexists. split; [reflexivity|]. split; [exact I2|]. constructor; assumption.
+    + destruct (src_get cur now srv s e) as [s1 g1] eqn:Eg.
+      destruct (src_get_sim now srv s e s1 g1 Hs Eg) as [S1 [S2 S3]]. rewrite S1. inversion H; subst.
+      split; [|constructor; assumption]. destruct g1; try reflexivity. contradiction.
+    + destruct (store_attr_req cur now srv r e index) as [r1 a1] eqn:Er. inversion H; subst.
+      destruct (IH r1 a Hr eq_refl) as [I1 I2]. rewrite I1. split; [reflexivity|]. constructor; assumption.
 Qed.
 
 Lemma keys_abs srcs :
@@ -347,234 +283,111 @@ Proof.
   induction srcs as [|[k s] r IH]; [reflexivity|]. rewrite abs_srcs_cons. cbn [flat_map snd]. rewrite rents_abs, IH. reflexivity.
 Qed.
 
-Definition all_ids (srcs : sources) : list string := flat_map (fun ks => map fst (ents_of (snd ks))) srcs.
-Fixpoint nodup_b (l : list string) : bool :=
-  match l with [] => true | x :: r => negb (mem x r) && nodup_b r end.
-Lemma nodup_b_iff l : nodup_b l = true <-> NoDup l.
-Proof.
-  induction l as [|x r IH]; cbn [nodup_b].
-  - split; [constructor|reflexivity].
-  - rewrite andb_true_iff, negb_true_iff, IH. split.
-    + intros [H1 H2]. constructor; [|exact H2]. intros Hin. apply mem_In in Hin. congruence.
-    + intros H. inversion H; subst. split; [|assumption].
-      destruct (mem x r) eqn:E; [apply mem_In in E; contradiction|reflexivity].
-Qed.
 
-Lemma NoDup_app_inv {A} (l1 l2 : list A) :
-  NoDup (l1 ++ l2) -> NoDup l1 /\ NoDup l2 /\ forall x, In x l1 -> ~ In x l2.
+Lemma with_sim kind : forall srcs seen, with_new srcs seen kind = ref_with (abs_srcs srcs) seen kind.
 Proof.
-  induction l1 as [|a l1 IH]; cbn [app]; intros H.
-  - repeat split; [constructor|exact H|intros x []].
-  - inversion H as [|? ? Hn Hr]; subst. destruct (IH Hr) as [I1 [I2 I3]]. repeat split.
-    + constructor; [|exact I1]. intros Hin. apply Hn. apply in_or_app. left; exact Hin.
-    + exact I2.
-    + intros x [<-|Hx] Hin; [apply Hn; apply in_or_app; right; exact Hin|apply (I3 x Hx Hin)].
-Qed.
-
-Lemma upsert_fresh {A} k (v : A) acc : ~ In k (map fst acc) -> upsert k v acc = acc ++ [(k, v)].
-Proof.
-  induction acc as [|[k' v'] r IH]; cbn [upsert map fst app In]; intros H; [reflexivity|].
-  destruct (String.eqb k k') eqn:E; [apply String.eqb_eq in E; subst; exfalso; apply H; left; reflexivity|].
-  rewrite IH; [reflexivity|]. intros Hin. apply H. right; exact Hin.
-Qed.
-
-Lemma fold_upsert_fresh {A} : forall (l acc : list (string * A)),
-  NoDup (map fst l) -> (forall k, In k (map fst l) -> ~ In k (map fst acc)) ->
-  fold_left (fun acc' kv => upsert (fst kv) (snd kv) acc') l acc = acc ++ l.
-Proof.
-  induction l as [|[k v] r IH]; intros acc Hnd Hd; cbn [fold_left fst snd].
-  - rewrite app_nil_r. reflexivity.
-  - cbn [map fst] in Hnd. inversion Hnd as [|? ? Hk Hr]; subst.
-    rewrite upsert_fresh; [|apply Hd; left; reflexivity].
-    rewrite IH; [rewrite <- app_assoc; reflexivity|exact Hr|].
-    intros k' Hin. rewrite map_app, in_app_iff. cbn [map fst In]. intros [H|[<-|[]]].
-    + apply (Hd k' (or_intror Hin) H).
-    + exact (Hk Hin).
-Qed.
-
-Lemma src_with_keys s kind k : In k (map fst (src_with s kind)) -> In k (map fst (ents_of s)).
-Proof.
-  unfold src_with. rewrite map_map. cbn [fst]. intros H. apply in_map_iff in H as [kv [<- Hin]].
-  apply filter_In in Hin as [Hin _]. apply in_map. exact Hin.
-Qed.
-
-Lemma NoDup_map_filter {A B} (f : A -> B) p (l : list A) : NoDup (map f l) -> NoDup (map f (filter p l)).
-Proof.
-  induction l as [|x r IH]; cbn [map filter]; intros H; [constructor|].
-  inversion H as [|? ? Hn Hr]; subst. destruct (p x); [|apply IH; exact Hr].
-  cbn [map]. constructor; [|apply IH; exact Hr]. intros Hin. apply Hn.
-  apply in_map_iff in Hin as [y [Hy Hin]]. apply filter_In in Hin as [Hin _]. rewrite <- Hy. apply in_map. exact Hin.
-Qed.
-
-Lemma src_with_nodup s kind : NoDup (map fst (ents_of s)) -> NoDup (map fst (src_with s kind)).
-Proof. unfold src_with. rewrite map_map. cbn [fst]. apply NoDup_map_filter. Qed.
-
-(* the store's with_descriptor when no entityID is present twice: the concatenation of the sources' answers *)
-Lemma model_with_concat kind : forall srcs acc,
-  NoDup (all_ids srcs) -> (forall k, In k (all_ids srcs) -> ~ In k (map fst acc)) ->
-  fold_left (fun acc ks => fold_left (fun acc' kv => upsert (fst kv) (snd kv) acc') (src_with (snd ks) kind) acc) srcs acc
-  = acc ++ flat_map (fun ks => src_with (snd ks) kind) srcs.
-Proof.
-  induction srcs as [|[k s] r IH]; intros acc Hnd Hd; cbn [fold_left flat_map snd].
-  - rewrite app_nil_r. reflexivity.
-  - unfold all_ids in Hnd, Hd. cbn [flat_map snd] in Hnd, Hd. fold (all_ids r) in Hnd, Hd.
-    destruct (NoDup_app_inv _ _ Hnd) as [N1 [N2 N3]].
-    rewrite fold_upsert_fresh.
-    + rewrite IH; [rewrite <- app_assoc; reflexivity|exact N2|].
-      intros k' Hin. rewrite map_app, in_app_iff. intros [H|H].
-      * apply (Hd k'); [apply in_or_app; right; exact Hin|exact H].
-      * apply src_with_keys in H. apply (N3 k' H Hin).
-    + apply src_with_nodup. exact N1.
-    + intros k' Hin. apply Hd. apply in_or_app. left. eapply src_with_keys; eauto.
-Qed.
-
-Lemma ref_with_concat kind : forall srcs seen,
-  NoDup (all_ids srcs) -> (forall k, In k (all_ids srcs) -> ~ In k seen) ->
-  ref_with (abs_srcs srcs) seen kind = flat_map (fun ks => src_with (snd ks) kind) srcs.
-Proof.
-  induction srcs as [|[k s] r IH]; intros seen Hnd Hd; [reflexivity|].
-  rewrite abs_srcs_cons. cbn [ref_with flat_map snd]. rewrite rents_abs.
-  unfold all_ids in Hnd, Hd. cbn [flat_map snd] in Hnd, Hd. fold (all_ids r) in Hnd, Hd.
-  destruct (NoDup_app_inv _ _ Hnd) as [N1 [N2 N3]].
-  rewrite IH.
-  - f_equal. unfold src_with. f_equal. apply filter_ext_in'. intros [k' v'] Hin. cbn [fst snd].
-    destruct (mem k' seen) eqn:E; [|reflexivity]. apply mem_In in E. exfalso.
-    apply (Hd k'); [apply in_or_app; left; apply (in_map fst _ _ Hin)|exact E].
-  - exact N2.
-  - intros k' Hin. rewrite in_app_iff. intros [H|H].
-    + apply (Hd k'); [apply in_or_app; right; exact Hin|exact H].
-    + apply (N3 k' H Hin).
-Qed.
-
-Lemma with_sim kind srcs :
-  nodup_b (all_ids srcs) = true ->
-  fold_left (fun acc ks => fold_left (fun acc' kv => upsert (fst kv) (snd kv) acc') (src_with (snd ks) kind) acc) srcs []
-  = ref_with (abs_srcs srcs) [] kind.
-Proof.
-  intros H. apply nodup_b_iff in H.
-  rewrite model_with_concat, ref_with_concat; auto.
+  induction srcs as [|[k s] r IH]; intros seen; [reflexivity|].
+  rewrite abs_srcs_cons. cbn [with_new ref_with]. rewrite rents_abs, IH. reflexivity.
 Qed.
 
 (* ------------------------------------------------------------------ one query *)
-Definition guard_query (srv : server) (srcs : sources) (q : query) : bool :=
-  match q with
-  | QGet e | QCerts e _ _ | QCats e | QReg e =>
-      all_tol srv e srcs && ((homes srcs e <=? 1)%nat || all_quiet srv e srcs)
-  | QService e _ _ _ | QSso e _ | QAcs e _ => all_tol srv e srcs && (homes srcs e <=? 1)%nat
-  | QAttrReq e _ => all_tol srv e srcs
-  | QKeys => true
-  | QWith _ => nodup_b (all_ids srcs)
-  end.
-
 Lemma via_get_sim now srv srcs e none f srcs' a :
-  norm none = ANone ->
-  all_inv srcs -> all_tol srv e srcs && ((homes srcs e <=? 1)%nat || all_quiet srv e srcs) = true ->
-  via_get now srv srcs e none f = (srcs', a) ->
-  exists a', ref_via now srv (abs_srcs srcs) e none f = (abs_srcs srcs', a') /\ norm a = norm a' /\ all_inv srcs'.
+  all_inv srcs ->
+  via_get cur now srv srcs e none f = (srcs', a) ->
+  ref_via now srv (abs_srcs srcs) e none f = (abs_srcs srcs', a) /\ all_inv srcs'.
 Proof.
-  intros Hn Hi Hg. apply andb_true_iff in Hg as [Ht Hg]. unfold via_get, ref_via.
-  destruct (store_get now srv srcs e) as [s1 g] eqn:Eg. intros H; inversion H; subst.
-  assert (Hg' : homes srcs e <= 1 \/ all_quiet srv e srcs = true).
-  { apply orb_true_iff in Hg as [Hg|Hg]; [left; apply Nat.leb_le; exact Hg|right; exact Hg]. }
-  destruct (store_get_sim now srv e srcs srcs' g Hi Ht Hg' Eg) as [S1 S2]. rewrite S1.
-  eexists. split; [reflexivity|]. split; [|exact S2].
-  destruct g; cbn [res_opt]; try reflexivity. rewrite Hn. reflexivity.
+  intros Hi. unfold via_get, ref_via.
+  destruct (store_get cur now srv srcs e) as [s1 g] eqn:Eg. intros H; inversion H; subst.
+  destruct (store_get_sim now srv e srcs srcs' g Hi Eg) as [S1 [S2 S3]]. rewrite S1.
+  split; [|exact S2]. destruct g; try reflexivity. contradiction.
 Qed.
 
+(* every query is answered exactly as the reference store answers it *)
 Lemma query_sim now srv srcs q srcs' a :
-  all_inv srcs -> guard_query srv srcs q = true ->
-  answer_query now srv srcs q = (srcs', a) ->
-  exists a', ref_answer now srv (abs_srcs srcs) q = (abs_srcs srcs', a') /\ norm a = norm a' /\ all_inv srcs'.
+  all_inv srcs ->
+  answer_query cur now srv srcs q = (srcs', a) ->
+  ref_answer now srv (abs_srcs srcs) q = (abs_srcs srcs', a) /\ all_inv srcs'.
 Proof.
-  intros Hi Hg. destruct q; cbn [guard_query answer_query ref_answer] in *.
+  intros Hi. destruct q; cbn [answer_query ref_answer f_last cur] in *.
   - apply via_get_sim; auto.
-  - apply andb_true_iff in Hg as [Ht Hh]. apply Nat.leb_le in Hh. apply store_service_sim; auto.
-  - apply andb_true_iff in Hg as [Ht Hh]. apply Nat.leb_le in Hh. apply store_service_sim; auto.
-  - apply andb_true_iff in Hg as [Ht Hh]. apply Nat.leb_le in Hh. apply store_service_sim; auto.
+  - apply store_service_sim; auto.
+  - apply store_service_sim; auto.
+  - apply store_service_sim; auto.
   - apply via_get_sim; auto.
   - apply store_attr_req_sim; auto.
   - apply via_get_sim; auto.
   - apply via_get_sim; auto.
-  - intros H; inversion H; subst. eexists. split; [reflexivity|]. rewrite keys_abs. split; [reflexivity|exact Hi].
-  - intros H; inversion H; subst. eexists. split; [reflexivity|]. rewrite (with_sim kind srcs' Hg). split; [reflexivity|exact Hi].
+  - intros H; inversion H; subst. rewrite keys_abs. split; [reflexivity|exact Hi].
+  - intros H; inversion H; subst. rewrite with_sim. split; [reflexivity|exact Hi].
 Qed.
 
 (* queries never add, remove or reorder sources *)
-Lemma src_get_static now srv m e : src_get now srv (SStatic m) e = (SStatic m, match lookup e m with Some en => ROk en | None => RKeyErr end).
-Proof. reflexivity. Qed.
-
-Lemma store_get_keys now srv e : forall srcs, map fst (fst (store_get now srv srcs e)) = map fst srcs.
+Lemma store_get_keys fl now srv e : forall srcs, map fst (fst (store_get fl now srv srcs e)) = map fst srcs.
 Proof.
   induction srcs as [|[k s] r IH]; [reflexivity|]. cbn [store_get].
-  destruct (src_get now srv s e) as [s1 g]. destruct g; try reflexivity.
-  destruct (store_get now srv r e) as [r1 a1]. cbn [fst map] in *. rewrite IH. reflexivity.
+  destruct (src_get fl now srv s e) as [s1 g]. destruct g; try reflexivity.
+  destruct (store_get fl now srv r e) as [r1 a1]. cbn [fst map] in *. rewrite IH. reflexivity.
 Qed.
 
-Lemma store_service_keys now srv e typ name b : forall srcs known,
-  map fst (fst (store_service now srv srcs e typ name b known)) = map fst srcs.
+Lemma store_service_v0_keys fl now srv e typ name b : forall srcs known,
+  map fst (fst (store_service_v0 fl now srv srcs e typ name b known)) = map fst srcs.
 Proof.
-  induction srcs as [|[k s] r IH]; intros known; [reflexivity|]. cbn [store_service].
-  destruct (src_get now srv s e) as [s1 g]. destruct g as [en| |]; try reflexivity.
+  induction srcs as [|[k s] r IH]; intros known; [reflexivity|]. cbn [store_service_v0].
+  destruct (src_get fl now srv s e) as [s1 g]. destruct g as [en| |]; try reflexivity.
   - destruct (ent_service en typ name b) as [| |[|x l]|[|x d]]; try reflexivity;
-      match goal with |- context [store_service now srv r e typ name b ?K] =>
-        specialize (IH K); destruct (store_service now srv r e typ name b K) as [r1 a1] end;
+      match goal with |- context [store_service_v0 fl now srv r e typ name b ?K] =>
+        specialize (IH K); destruct (store_service_v0 fl now srv r e typ name b K) as [r1 a1] end;
       cbn [fst map] in *; rewrite IH; reflexivity.
-  - specialize (IH known). destruct (store_service now srv r e typ name b known) as [r1 a1].
+  - specialize (IH known). destruct (store_service_v0 fl now srv r e typ name b known) as [r1 a1].
     cbn [fst map] in *. rewrite IH. reflexivity.
 Qed.
 
-Lemma store_attr_req_keys now srv e index : forall srcs,
-  map fst (fst (store_attr_req now srv srcs e index)) = map fst srcs.
+Lemma store_service_new_keys fl now srv e typ name b : forall srcs,
+  map fst (fst (store_service_new fl now srv srcs e typ name b)) = map fst srcs.
+Proof.
+  induction srcs as [|[k s] r IH]; [reflexivity|]. cbn [store_service_new].
+  destruct (src_get fl now srv s e) as [s1 g]. destruct g as [en| |]; try reflexivity.
+  - destruct (src_get fl now srv s1 e) as [s2 g2]. reflexivity.
+  - destruct (store_service_new fl now srv r e typ name b) as [r1 a1]. cbn [fst map] in *. rewrite IH. reflexivity.
+Qed.
+
+Lemma store_attr_req_keys fl now srv e index : forall srcs,
+  map fst (fst (store_attr_req fl now srv srcs e index)) = map fst srcs.
 Proof.
   induction srcs as [|[k s] r IH]; [reflexivity|]. cbn [store_attr_req].
   destruct (has_key e (ents_of s)).
-  - destruct (src_get now srv s e) as [s1 g]. reflexivity.
-  - destruct (store_attr_req now srv r e index) as [r1 a1]. cbn [fst map] in *. rewrite IH. reflexivity.
+  - destruct (src_get fl now srv s e) as [s1 g]. reflexivity.
+  - destruct (store_attr_req fl now srv r e index) as [r1 a1]. cbn [fst map] in *. rewrite IH. reflexivity.
 Qed.
 
-Lemma answer_query_keys now srv srcs q : map fst (fst (answer_query now srv srcs q)) = map fst srcs.
+Lemma answer_query_keys fl now srv srcs q : map fst (fst (answer_query fl now srv srcs q)) = map fst srcs.
 Proof.
-  destruct q; cbn [answer_query]; unfold via_get;
-    try (pose proof (store_get_keys now srv e srcs) as H; destruct (store_get now srv srcs e); exact H);
-    try apply store_service_keys; try apply store_attr_req_keys; reflexivity.
+  destruct q; cbn [answer_query]; unfold via_get, store_service;
+    try (pose proof (store_get_keys fl now srv e srcs) as H; destruct (store_get fl now srv srcs e); exact H);
+    try (destruct (f_fall fl); [apply store_service_v0_keys|apply store_service_new_keys]);
+    try apply store_attr_req_keys; reflexivity.
 Qed.
 
 (* ------------------------------------------------------------------ load / reload *)
 Definition keys_ok (st : store) : Prop := forall n, In (KI n) (map fst (st_srcs st)) -> n <= st_ii st.
 
-Definition nonempty {A} (l : list A) : bool := match l with [] => false | _ => true end.
-(* finding class 3: an unsigned document that says something is accepted under a configured certificate *)
-Definition class3_b (ns : bool) (now : Z) (sp : srcspec) (f : fetched) : bool :=
-  eff_cert ns sp &&
-  match f with
-  | FBody (D d) Unsigned => match doc_says (eff_cv ns sp) now (D d) with
-                            | Some es => nonempty (view (eff_cv ns sp) now es)
-                            | None => false
-                            end
-  | _ => false
-  end.
+Lemma eff_cert_cur ns sp : eff_cert cur ns sp = cfg_cert ns sp.
+Proof. unfold eff_cert, cfg_cert. destruct (sp_kind sp); reflexivity. Qed.
 
-Lemma load_static_accept ns sp now f m :
-  load_static ns sp now f = Some m -> class3_b ns now sp f = false -> accept ns now sp f = Some m.
+(* a load the code reports as successful was acceptable, and contributes exactly the document's view *)
+Lemma load_static_accept ns sp now f m : load_static cur ns sp now f = Some m -> accept ns now sp f = Some m.
 Proof.
-  unfold load_static, accept, class3_b. destruct f as [|p sg]; [discriminate|].
-  rewrite parse_doc_says. destruct (doc_says (eff_cv ns sp) now p) as [es|] eqn:Ed; [|discriminate].
-  destruct (sig_gate (eff_cert ns sp) (sp_kind sp) (eff_node ns sp) p sg) eqn:Eg; [|discriminate].
-  intros H; inversion H; subst. clear H. intros Hc.
-  destruct (eff_cert ns sp); [|reflexivity]. cbn [andb] in *.
-  unfold sig_gate in Eg. cbn [negb] in Eg.
-  destruct sg; cbn [sig_valid negb andb]; try reflexivity.
-  - (* Unsigned *) destruct p as [| |d]; cbn in Ed; try discriminate.
-    + inversion Ed; subst. reflexivity.
-    + change (doc_says (eff_cv ns sp) now (D d)) with (doc_says (eff_cv ns sp) now (D d)) in Hc.
-      unfold doc_says in Hc, Ed. rewrite Ed in Hc. unfold nonempty in Hc.
-      destruct (view (eff_cv ns sp) now es); [reflexivity|discriminate].
-  - (* Tampered *) destruct p as [| |d]; cbn in Ed, Eg; try discriminate.
-    + inversion Ed; subst. reflexivity.
-    + unfold verify in Eg. destruct (sp_kind sp); discriminate.
-  - (* WrongKey *) destruct p as [| |d]; cbn in Ed, Eg; try discriminate.
-    + inversion Ed; subst. reflexivity.
-    + unfold verify in Eg. destruct (sp_kind sp); discriminate.
+  unfold load_static, accept. destruct f as [|p sg]; [discriminate|].
+  rewrite parse_doc_says, eff_cert_cur. destruct (doc_says (eff_cv ns sp) now p) as [es|] eqn:Ed; [|discriminate].
+  destruct (sig_gate cur (cfg_cert ns sp) (sp_kind sp) (eff_node ns sp) p sg) eqn:Eg; [|discriminate].
+  intros H; inversion H; subst. clear H. cbv zeta.
+  destruct (cfg_cert ns sp) eqn:Ecc; [|reflexivity]. cbn [andb].
+  destruct (sig_valid sg) eqn:Esv; [reflexivity|]. cbn [negb andb].
+  destruct (nonempty (view (eff_cv ns sp) now es)) eqn:Ene; [|reflexivity]. exfalso.
+  destruct p as [| |d].
+  - cbn in Ed. discriminate.
+  - cbn in Ed. inversion Ed; subst. cbn in Ene. discriminate.
+  - rewrite sig_gate_cur_doc, Esv in Eg. cbn in Eg. discriminate.
 Qed.
 
 Lemma in_kupsert k v : forall l k', In k' (map fst (kupsert k v l)) -> k' = k \/ In k' (map fst l).
@@ -615,11 +428,11 @@ Proof. destruct k'; reflexivity. Qed.
 Lemma mdx_inv_empty c p : mdx_inv {| x_ents := []; x_exp := []; x_cert := c; x_period := p |}.
 Proof. intros e H. discriminate. Qed.
 
+
 Lemma load1_sim ns now st sp f st' ok :
-  keys_ok st -> all_inv (st_srcs st) -> load1 ns now st sp f = (st', ok) ->
+  keys_ok st -> all_inv (st_srcs st) -> load1 cur ns now st sp f = (st', ok) ->
   keys_ok st' /\ all_inv (st_srcs st') /\ st_ii st <= st_ii st' /\
-  (if ok then class3_b ns now sp f = false ->
-              ref_load1 ns now (abs_srcs (st_srcs st)) sp f = Some (abs_srcs (st_srcs st'))
+  (if ok then ref_load1 ns now (abs_srcs (st_srcs st)) sp f = Some (abs_srcs (st_srcs st'))
    else st_srcs st' = st_srcs st).
 Proof.
   intros Hk Hi. unfold load1, ref_load1, okey.
@@ -637,46 +450,40 @@ Proof.
   assert (Hko' : keys_ok {| st_srcs := st_srcs st; st_ii := ii' |}).
   { intros n Hin. cbn [st_srcs st_ii] in *. specialize (Hk n Hin). lia. }
   destruct (sp_kind sp) eqn:Ek.
-  1-3: destruct (load_static ns sp now f) as [m|] eqn:El; intros H; inversion H; subst; cbn [st_srcs st_ii];
+  1-3: destruct (load_static cur ns sp now f) as [m|] eqn:El; intros H; inversion H; subst; cbn [st_srcs st_ii];
        [split; [apply Hko|]; split; [apply all_inv_kupsert; [exact I|exact Hi]|]; split; [exact Hii|];
-        intros Hc; rewrite (load_static_accept _ _ _ _ _ El Hc), <- Hak; f_equal; symmetry; apply abs_kupsert; exact Hkm
+        rewrite (load_static_accept _ _ _ _ _ El), <- Hak; f_equal; symmetry; apply abs_kupsert; exact Hkm
        |split; [exact Hko'|]; split; [exact Hi|]; split; [exact Hii|reflexivity]].
   destruct ns; intros H; inversion H; subst; cbn [st_srcs st_ii].
   - split; [exact Hko'|]. split; [exact Hi|]. split; [exact Hii|reflexivity].
   - split; [apply Hko|]. split; [apply all_inv_kupsert; [apply mdx_inv_empty|exact Hi]|]. split; [exact Hii|].
-    intros _. rewrite <- Hak. f_equal. symmetry. rewrite abs_kupsert by exact Hkm. reflexivity.
+    rewrite <- Hak. f_equal. symmetry. rewrite abs_kupsert by exact Hkm. reflexivity.
 Qed.
 
-Definition items_guard (ns : bool) (now : Z) (items : list (srcspec * fetched)) : bool :=
-  forallb (fun it => negb (class3_b ns now (fst it) (snd it))) items.
-
 Lemma imp_sim ns now : forall items st st' ok,
-  keys_ok st -> all_inv (st_srcs st) -> imp ns now st items = (st', ok) ->
+  keys_ok st -> all_inv (st_srcs st) -> imp cur ns now st items = (st', ok) ->
   st_ii st <= st_ii st' /\
   (ok = true -> keys_ok st' /\ all_inv (st_srcs st') /\
-                (items_guard ns now items = true ->
-                 ref_imp ns now (abs_srcs (st_srcs st)) items = Some (abs_srcs (st_srcs st')))).
+                ref_imp ns now (abs_srcs (st_srcs st)) items = Some (abs_srcs (st_srcs st'))).
 Proof.
   induction items as [|[sp f] r IH]; intros st st' ok Hk Hi H.
   - cbn in H. inversion H; subst. split; [lia|]. intros _. split; [exact Hk|]. split; [exact Hi|]. reflexivity.
-  - cbn [imp] in H. destruct (load1 ns now st sp f) as [st1 ok1] eqn:El.
+  - cbn [imp] in H. destruct (load1 cur ns now st sp f) as [st1 ok1] eqn:El.
     destruct (load1_sim ns now st sp f st1 ok1 Hk Hi El) as [L1 [L2 [L3 L4]]].
     destruct ok1.
     + destruct (IH st1 st' ok L1 L2 H) as [I1 I2]. split; [lia|]. intros Hok.
       destruct (I2 Hok) as [J1 [J2 J3]]. split; [exact J1|]. split; [exact J2|].
-      unfold items_guard. cbn [forallb fst snd ref_imp]. intros Hg. apply andb_true_iff in Hg as [Hg1 Hg2].
-      apply negb_true_iff in Hg1. rewrite (L4 Hg1). apply J3. exact Hg2.
+      cbn [ref_imp]. rewrite L4. exact J3.
     + inversion H; subst. split; [exact L3|]. discriminate.
 Qed.
 
 Lemma reload_sim ns now st items st' ok :
-  keys_ok st -> all_inv (st_srcs st) -> reload ns now st items = (st', ok) ->
+  keys_ok st -> all_inv (st_srcs st) -> reload cur ns now st items = (st', ok) ->
   keys_ok st' /\ all_inv (st_srcs st') /\
-  (if ok then items_guard ns now items = true -> ref_imp ns now [] items = Some (abs_srcs (st_srcs st'))
-   else st_srcs st' = st_srcs st).
+  (if ok then ref_imp ns now [] items = Some (abs_srcs (st_srcs st')) else st_srcs st' = st_srcs st).
 Proof.
   intros Hk Hi. unfold reload.
-  destruct (imp ns now {| st_srcs := []; st_ii := st_ii st |} items) as [st1 ok1] eqn:Ei.
+  destruct (imp cur ns now {| st_srcs := []; st_ii := st_ii st |} items) as [st1 ok1] eqn:Ei.
   assert (Hk0 : keys_ok {| st_srcs := []; st_ii := st_ii st |}) by (intros n []).
   assert (Hi0 : all_inv (st_srcs {| st_srcs := []; st_ii := st_ii st |})) by constructor.
   destruct (imp_sim ns now items _ st1 ok1 Hk0 Hi0 Ei) as [I1 I2]. cbn [st_ii st_srcs] in *.
@@ -689,32 +496,6 @@ Qed.
 (* ------------------------------------------------------------------ whole histories *)
 Definition winv (w : world) : Prop := keys_ok (w_store w) /\ all_inv (st_srcs (w_store w)).
 
-(* the situation of operation [o] in state [w] is outside every finding class *)
-Definition guard_op (w : world) (o : op) : bool :=
-  match o with
-  | OLoad ns sp f => negb (class3_b ns (w_now w) sp f)
-  | OReload ns items => items_guard ns (w_now w) items
-  | OQuery q => guard_query (w_srv w) (st_srcs (w_store w)) q
-  | OTick _ | OServer _ => true
-  end.
-
-Fixpoint guarded (w : world) (h : list op) : Prop :=
-  match h with
-  | [] => True
-  | o :: r => guard_op w o = true /\ guarded (fst (step w o)) r
-  end.
-
-Fixpoint guarded_b (w : world) (h : list op) : bool :=
-  match h with
-  | [] => true
-  | o :: r => guard_op w o && guarded_b (fst (step w o)) r
-  end.
-Lemma guarded_b_iff h : forall w, guarded_b w h = true <-> guarded w h.
-Proof.
-  induction h as [|o r IH]; intros w; cbn [guarded_b guarded]; [tauto|].
-  rewrite andb_true_iff, IH. tauto.
-Qed.
-
 Lemma winv_init now : winv (init now).
 Proof. split; [intros n []|constructor]. Qed.
 
@@ -726,39 +507,35 @@ Lemma abs_same_srcs w st :
   abs {| w_store := st; w_now := w_now w; w_srv := w_srv w |} = abs w.
 Proof. intros H. unfold abs. cbn [w_store w_now w_srv]. rewrite H. reflexivity. Qed.
 
-Theorem refines : forall h w, winv w -> guarded w h -> spec (abs w) h (run w h).
+Theorem refines : forall h w, winv w -> spec (abs w) h (run cur w h).
 Proof.
-  induction h as [|o r IH]; intros w [Hk Hi] Hg; [reflexivity|].
-  destruct Hg as [Hgo Hg]. destruct o as [ns sp f|ns items|dt|tbl|q]; cbn [run step spec guard_op] in *.
-  - destruct (load1 ns (w_now w) (w_store w) sp f) as [st ok] eqn:El. cbn [fst] in Hg.
-    destruct (load1_sim _ _ _ _ _ _ _ Hk Hi El) as [L1 [L2 [_ L4]]].
-    apply negb_true_iff in Hgo. cbn [app].
+  induction h as [|o r IH]; intros w [Hk Hi]; [reflexivity|].
+  destruct o as [ns sp f|ns items|dt|tbl|q]; cbn [run step spec] in *.
+  - destruct (load1 cur ns (w_now w) (w_store w) sp f) as [st ok] eqn:El.
+    destruct (load1_sim _ _ _ _ _ _ _ Hk Hi El) as [L1 [L2 [_ L4]]]. cbn [app].
     destruct ok.
-    + exists (abs_srcs (st_srcs st)). split; [apply L4; exact Hgo|].
-      apply (IH {| w_store := st; w_now := w_now w; w_srv := w_srv w |}); [split; assumption|exact Hg].
+    + exists (abs_srcs (st_srcs st)). split; [exact L4|].
+      apply (IH {| w_store := st; w_now := w_now w; w_srv := w_srv w |}); split; assumption.
     + rewrite <- (abs_same_srcs w st L4).
-      apply (IH {| w_store := st; w_now := w_now w; w_srv := w_srv w |}); [split; assumption|exact Hg].
-  - destruct (reload ns (w_now w) (w_store w) items) as [st ok] eqn:El. cbn [fst] in Hg.
+      apply (IH {| w_store := st; w_now := w_now w; w_srv := w_srv w |}); split; assumption.
+  - destruct (reload cur ns (w_now w) (w_store w) items) as [st ok] eqn:El.
     destruct (reload_sim _ _ _ _ _ _ Hk Hi El) as [L1 [L2 L4]]. cbn [app].
     destruct ok.
-    + exists (abs_srcs (st_srcs st)). split; [apply L4; exact Hgo|].
-      apply (IH {| w_store := st; w_now := w_now w; w_srv := w_srv w |}); [split; assumption|exact Hg].
+    + exists (abs_srcs (st_srcs st)). split; [exact L4|].
+      apply (IH {| w_store := st; w_now := w_now w; w_srv := w_srv w |}); split; assumption.
     + rewrite <- (abs_same_srcs w st L4).
-      apply (IH {| w_store := st; w_now := w_now w; w_srv := w_srv w |}); [split; assumption|exact Hg].
-  - cbn [fst app] in *.
-    apply (IH {| w_store := w_store w; w_now := (w_now w + dt)%Z; w_srv := w_srv w |}); [split; assumption|exact Hg].
-  - cbn [fst app] in *.
-    apply (IH {| w_store := w_store w; w_now := w_now w; w_srv := tbl |}); [split; assumption|exact Hg].
-  - destruct (answer_query (w_now w) (w_srv w) (st_srcs (w_store w)) q) as [srcs a] eqn:Ea. cbn [fst app] in *.
-    destruct (query_sim _ _ _ _ _ _ Hi Hgo Ea) as [a' [Q1 [Q2 Q3]]].
-    cbn [abs r_srcs r_now r_srv]. rewrite Q1. cbn [fst snd]. split; [exact Q2|].
-    apply (IH {| w_store := {| st_srcs := srcs; st_ii := st_ii (w_store w) |}; w_now := w_now w; w_srv := w_srv w |});
-      [|exact Hg].
+      apply (IH {| w_store := st; w_now := w_now w; w_srv := w_srv w |}); split; assumption.
+  - cbn [app]. apply (IH {| w_store := w_store w; w_now := (w_now w + dt)%Z; w_srv := w_srv w |}); split; assumption.
+  - cbn [app]. apply (IH {| w_store := w_store w; w_now := w_now w; w_srv := tbl |}); split; assumption.
+  - destruct (answer_query cur (w_now w) (w_srv w) (st_srcs (w_store w)) q) as [srcs a] eqn:Ea. cbn [app].
+    destruct (query_sim _ _ _ _ _ _ Hi Ea) as [Q1 Q3].
+    cbn [abs r_srcs r_now r_srv]. rewrite Q1. cbn [fst snd]. split; [reflexivity|].
+    apply (IH {| w_store := {| st_srcs := srcs; st_ii := st_ii (w_store w) |}; w_now := w_now w; w_srv := w_srv w |}).
     split; [|exact Q3]. intros n Hin. cbn [w_store st_srcs st_ii] in *.
-    pose proof (answer_query_keys (w_now w) (w_srv w) (st_srcs (w_store w)) q) as Hkeys. rewrite Ea in Hkeys.
+    pose proof (answer_query_keys cur (w_now w) (w_srv w) (st_srcs (w_store w)) q) as Hkeys. rewrite Ea in Hkeys.
     cbn [fst] in Hkeys. rewrite Hkeys in Hin. apply Hk. exact Hin.
 Qed.
 
-(* the model, run on any history that stays outside the finding classes, satisfies the property *)
-Theorem model_satisfies_spec now h : guarded (init now) h -> spec (rinit now) h (run (init now) h).
-Proof. intros H. rewrite <- abs_init. apply refines; [apply winv_init|exact H]. Qed.
+(* the model of the code as it is now satisfies the property on EVERY history *)
+Theorem model_satisfies_spec now h : spec (rinit now) h (run cur (init now) h).
+Proof. rewrite <- abs_init. apply refines. apply winv_init. Qed.
